@@ -331,6 +331,11 @@ def m_oneof_order(x, ref: RefResult, spec: dict, rid: int = 0) -> t.List[V]:
     return out
 
 
+def m_anomalies(x, rid: t.Optional[int] = None) -> t.List[V]:
+    """Harness-side anomalies of collaborator identity (one manager / store instance serving two runs)."""
+    return [(e[2], e[3]) for e in x.log if e[0] == 'anomaly' and (rid is None or e[1] == rid)]
+
+
 # ------------------------------------------------------------------------------- C13
 
 def m_leftovers(x, rid: int = 0) -> t.List[V]:
